@@ -380,7 +380,27 @@ func (l *Lang) ReportPositions(shapes map[string]*Shape) *report.RuleResult {
 		a := l.Actions[n]
 		pkey := l.L.Label + ":" + g.Key(a.Prod)
 		seen := map[string]bool{}
+		orderBad := ""
+		nOrdered := 0
 		for _, p := range a.Paths {
+			// errors arrive in source order: on one path the reports take their positions from symbols in ascending order
+			prevI, prevWhat := 0, ""
+			for _, ev := range p.St.Events {
+				if ev.Kind != "report" || len(ev.Args) != 1 {
+					continue
+				}
+				if e, ok := ev.Args[0].(ErrV); ok && len(e.Args) == 2 {
+					if i := rootSym(e.Args[1]); i > 0 {
+						if prevI > i && orderBad == "" {
+							orderBad = fmt.Sprintf("the error positioned at %s is reported after the one positioned at %s, which comes later in the source: the callback receives them out of source order (path [%s])", e.Args[1], prevWhat, pathLabel(p))
+						}
+						if prevI > 0 {
+							nOrdered++
+						}
+						prevI, prevWhat = i, e.Args[1].String()
+					}
+				}
+			}
 			for _, ev := range p.St.Events {
 				if ev.Kind != "report" || len(ev.Args) != 1 {
 					continue
@@ -424,6 +444,14 @@ func (l *Lang) ReportPositions(shapes map[string]*Shape) *report.RuleResult {
 				} else {
 					res.Bad(k, l.Prog.Pos(ev.At), a.Prod.String(), fmt.Sprintf("the error takes its position from $%d.(*%s).Position, but the productions of %s build that object without a Position: the error is delivered with a nil position although it is not an end-of-input error", sy.I, pp.T, a.Prod.RHS[sy.I-1]))
 				}
+			}
+		}
+		if nOrdered > 0 || orderBad != "" {
+			res.Count("report-sequences", 1)
+			if orderBad != "" {
+				res.Bad(pkey+"/report-order", l.actionPos(a), a.Prod.String(), orderBad)
+			} else {
+				res.OK(pkey+"/report-order", l.actionPos(a), a.Prod.String(), "several errors on one path are reported in the order of their positions")
 			}
 		}
 	}
